@@ -98,6 +98,14 @@ def run_case(ctx, fam, M, k, sel, dtype, tag="rand"):
     hyps3 = [(h.transcript, float(h.vis_sc)) for h in boh3]
     ctx.check(sorted(hyps3) == sorted(hyps), "result_depends_on_decoder_history",
               lambda: "fresh decoder %r, the same decoder after another line and a rejected line %r; " % (sorted(hyps), sorted(hyps3)) + desc())
+    # the documented symbol_separator option (used with multi-character symbols) only changes how a prefix is written
+    if C <= 16:
+        sep_dec = CTCPrefixLogRawNumpyDecoder(letters_for(C), k, relevant_logits_selector=selector_for(sel), symbol_separator="|")
+        with np.errstate(all="ignore"):
+            boh_sep = ctx.must("decoder_raises", sep_dec, logits.copy())
+        got_sep = sorted((h.transcript, float(h.vis_sc)) for h in boh_sep)
+        want_sep = sorted(("|".join(t), v) for t, v in hyps)
+        ctx.check(got_sep == want_sep, "symbol_separator_changes_the_result", lambda: "with separator %r, without %r; " % (got_sep, sorted(hyps)) + desc())
     ctx.event("family:" + fam)
     ctx.event("selector:" + sel)
     ctx.event("k:%d" % k)
